@@ -44,7 +44,11 @@ STRUCTS = ["flat", "nest:/p", "nest:/p/{q}", "split:/p", "nest2:/p+/{q}"]
 # "g2": two nesting levels WITHOUT prefixes (see table_ops); its fallback factor is a set of positions "pos:S+L1+G2"
 G2_POS = ["R", "S", "G1", "L1", "G2", "L2"]
 FBS = ["none", "root", "nested", "both"]
-DOMS = {"none": [], "one": ["a.T"], "lit+param": ["a.T", "{s}.T"], "catch+lit": ["{*s}.T", "a.T"]}
+DOMS = {"none": [], "one": ["a.T"], "lit+param": ["a.T", "{s}.T"], "catch+lit": ["{*s}.T", "a.T"],
+        # parameters in an INNER label only (the first label is a literal): two guards that differ in their first label
+        # (disjoint), and two that only differ in the parameter name (same hosts: C20 wants them rejected as conflicting)
+        "inner-ok": ["a.{s}.T", "b.{s}.T"], "inner-clash": ["a.{s}.T", "a.{r}.T"]}
+MUST_REJECT_DOMS = {"inner-clash": "the two guards match exactly the same hosts (they differ only in the name of a parameter)"}
 REQ_METHODS = ["GET", "POST", "FOO", "DELETE"]
 SEGS = ["a", "b", "p", "zz"]
 SINGLE_FBS = ("FB1__AM_0", "FB2__AM_0", "FB3__AM_0", "RFB42")
@@ -143,6 +147,10 @@ def tables_for(tier):
                 add("Q6:inherited-prefix", T(rs, "pdom:/p", fb, "one"))
                 for dm in ("lit+param", "catch+lit"):
                     add("Q6:domain-in-domain", T(rs, "dnest", fb, dm))
+        for rs in ([("a", "get"), ("a", "post")], [("ax", "gp"), ("ab", "foo")]):
+            for dm in ("inner-ok", "inner-clash"):
+                for fb in ("none", "both"):
+                    add("Q7:inner-label-parameters", T(rs, "flat", fb, dm))
         # Q5 grouping blueprints without prefixes: [nest{r0, S?}, nest{G1?, nest{r1, L1?}}, nest{G2?, nest{r2, L2?}}, R?]
         # every set of <= 3 fallback positions (inside one domain nest, so that the tables can be packed without a
         # path prefix on the chain), and 8 position sets without any domain (served alone)
@@ -180,6 +188,11 @@ def tables_for(tier):
                 for st in ("flat", "nest:/p", "nest:/p/{q}", "split:/p"):
                     for fb in FBS:
                         add("T4:domains", T(rs, st, fb, dm))
+        for rs in r4:
+            for dm in ("inner-ok", "inner-clash"):
+                for st in ("flat", "nest:/p"):
+                    for fb in FBS:
+                        add("T8:inner-label-parameters", T(rs, st, fb, dm))
         for rs in r3:
             for st in ("pnest:/p", "pnsplit:/p", "pnest:/p/{q}"):
                 for fb in FBS:
@@ -342,7 +355,10 @@ def table_hosts(t, tld):
         return [None]
     # with an explicit port too: "the domain requested by the client is determined using the Host header" (domain_guards.md),
     # i.e. the host part of `host[:port]`, in relative and in absolute (trailing dot) form
-    return [f"a.{tld}", f"b.{tld}", f"x.a.{tld}", f"a.{tld}.", "nope", None, f"a.{tld}:8080", f"a.{tld}.:8080", f"b.{tld}.:80"]
+    hosts = [f"a.{tld}", f"b.{tld}", f"x.a.{tld}", f"a.{tld}.", "nope", None, f"a.{tld}:8080", f"a.{tld}.:8080", f"b.{tld}.:80"]
+    if t["dom"].startswith("inner"):
+        hosts += [f"a.x.{tld}", f"b.x.{tld}", f"c.x.{tld}", f"a.x.{tld}.", f"b.y.{tld}:8080", f"x.{tld}"]
+    return hosts
 
 
 def table_requests(entry, ti, tier):
@@ -1240,6 +1256,12 @@ def oracle_c07(obs, rep, tier):
                              else error_title(g["stderr"])})
                 else:
                     verdicts["table:" + ("accepted" if g["exit"] == 0 else "rejected")] += 1
+                    t0 = s["tables"][0]["table"]
+                    if g["exit"] == 0 and t0["dom"] in MUST_REJECT_DOMS:
+                        rep.violation("route:conflicting-domain-guards-accepted",
+                                      f"{describe_table(t0)}: pavexc accepted the blueprint although {MUST_REJECT_DOMS[t0['dom']]}: "
+                                      f"{[d for d in DOMS[t0['dom']]]} (C20: two guards that can match the same host are rejected as conflicting)",
+                                      {"oracle": "C07", "spec": replay_spec(s, []), "tables": [t0]})
                     if g["exit"] != 0:
                         if g.get("timed_out"):
                             # the harness's own limit (machine load), never a verdict: reported as a cap
